@@ -108,6 +108,63 @@ def _external_callee(mod, call) -> bool:
     return bool(tgt) and not tgt.startswith("pydiverse.transform")
 
 
+def _external_receiver(mod, call) -> bool:
+    """`x.m(..)` where `x` is a local / parameter that holds a third-party object: a parameter annotated with a third-party type,
+    or a local only ever assigned from third-party constructors / method chains on such names.  What such a method does with None
+    is the third party's contract."""
+    f = call.func
+    if not isinstance(f, ast.Attribute):
+        return False
+    base = f.value
+    while isinstance(base, (ast.Attribute, ast.Call, ast.Subscript)):
+        base = base.func if isinstance(base, ast.Call) else base.value
+    if not isinstance(base, ast.Name):
+        return False
+    funcs = []
+    fn = enclosing_function(call)
+    while fn is not None:
+        funcs.append(fn)
+        fn = enclosing_function(fn)
+
+    def ext_ann(a):
+        if a is None:
+            return False
+        roots = {n.id for n in ast.walk(a) if isinstance(n, ast.Name)}
+        ext = {r for r in roots if (t := mod.imports.get(r)) and not t.startswith("pydiverse.transform") and t.split(".")[0] not in ("typing", "collections", "uuid")}
+        own = {r for r in roots if (t := mod.imports.get(r)) and t.startswith("pydiverse.transform")}
+        return bool(ext) and not own and not any(isinstance(n, ast.Constant) and n.value is None for n in ast.walk(a))
+
+    external: set = set()
+    for fn in funcs:
+        if isinstance(fn, ast.Lambda):
+            continue
+        for a in fn.args.args + fn.args.kwonlyargs:
+            if ext_ann(a.annotation):
+                external.add(a.arg)
+    changed = True
+    assigns: dict = {}
+    for fn in funcs:
+        for n in ast.walk(fn):
+            if isinstance(n, ast.Assign) and len(n.targets) == 1 and isinstance(n.targets[0], ast.Name):
+                assigns.setdefault(n.targets[0].id, []).append(n.value)
+
+    def ext_val(v):
+        b = v
+        while isinstance(b, (ast.Attribute, ast.Call)):
+            b = b.func if isinstance(b, ast.Call) else b.value
+        if isinstance(b, ast.Name):
+            return b.id in external or _external_callee(mod, ast.Call(func=ast.Attribute(value=b, attr="x", ctx=ast.Load()), args=[], keywords=[]))
+        return False
+
+    while changed:
+        changed = False
+        for name, vals in assigns.items():
+            if name not in external and vals and all(ext_val(v) for v in vals):
+                external.add(name)
+                changed = True
+    return base.id in external
+
+
 def _is_none_test(test, expr_text, polarity):
     """does `test` holding with `polarity` imply `expr_text is not None`?"""
     if isinstance(test, ast.Compare) and len(test.ops) == 1 and isinstance(test.comparators[0], ast.Constant) and test.comparators[0].value is None:
@@ -307,7 +364,7 @@ def run_rule(chk, rule, sym, *, scope=None, floor_slots=3, floor_derefs=8):
             func = enclosing_function(node)
             if kind == "arg":
                 call, i, kw = detail
-                if _external_callee(mod, call):
+                if _external_callee(mod, call) or _external_receiver(mod, call):
                     chk.ok(rule, mod, node, f"{text} -> third-party callee {norm(call.func)[:40]} (its contract, not decided)")
                     continue
                 o = _callee_param_optional(sym, mod, call, i, kw)
